@@ -51,9 +51,15 @@ def fn_text(f, indent=""):
     params = ["%s: %s" % (n, t) for n, t in f.get("params", [])]
     if f.get("recv"):
         params = ["&self"] + params
-    sig = "%s%sfn %s(%s)" % ((f["vis"] + " ") if f["vis"] else "", "async " if f["async"] else "", f["name"], ", ".join(params))
+    sg = f.get("sig") or {}
+    quals = sg.get("quals", "")
+    if f["async"] and ("extern" in quals or "const" in quals):
+        quals = "unsafe " if "unsafe" in quals else ""       # async goes with unsafe only
+    sig = "%s%s%sfn %s%s(%s)" % ((f["vis"] + " ") if f["vis"] else "", "async " if f["async"] else "", quals, f["name"],
+                                 sg.get("generics", ""), ", ".join(params))
     if f["ret"] is not None:
         sig += " -> " + ty_text(f["ret"])
+    sig += sg.get("where", "")
     lines.append(indent + sig + " {")
     lines.append(indent + "    " + f.get("body", "todo!()"))
     lines.append(indent + "}")
@@ -252,6 +258,23 @@ PARAM_SETS = [
     [["app", "AppHandle"], ["query", "String"], ["ch", "tauri::ipc::Channel<i32>"]],
     [["state", "State<'_, Db>"], ["flag", "bool"]],
 ]
+# parameter types as a dimension of discovery: types that look like framework types but are not (or not quite), and
+# odd but legal parameters; none may prevent the discovery of this or of any other command
+ODD_PARAM_SETS = [
+    [["ch", "Channel"]], [["ch", "ipc::Channel"]], [["ch", "tauri::ipc::Channel"]], [["ch", "tauri::Channel"]],
+    [["ch", "crate::Channel"]], [["ch", "Channel<String, u8>"]], [["ch", "Option<Channel<String>>"]], [["ch", "&Channel<String>"]],
+    [["ch", "Vec<Channel<i32>>"]], [["ch", "Channel<>"]], [["ch", "my::Channel<String>"]], [["ch", "Channel<Channel<u8>>"]],
+    [["state", "State"]], [["state", "State<Db>"]], [["state", "tauri::State<'_, Db>"]], [["app", "AppHandle<R>"]],
+    [["app", "tauri::AppHandle<R>"]], [["w", "Window"]], [["w", "tauri::Window<R>"]], [["w", "WebviewWindow"]], [["app", "crate::AppHandle"]],
+    [["a", "i32"], ["ch", "Channel"], ["b", "String"]],
+    [["cb", "impl Fn(String) -> bool"]], [["s", "&'a str"]], [["x", "[u8; 4]"]], [["t", "(i32, String)"]], [["f", "fn(i32) -> i32"]],
+    [["d", "Box<dyn Handler>"]], [["p", "*const u8"]], [["(a, b)", "(i32, i32)"]], [["mut x", "i32"]], [["_", "String"]],
+    [["_x", "i32"]], [["r#type", "String"]], [["m", "HashMap<String, Vec<Option<User>>>"]], [["n", "!"]], [["q", "<T as Trait>::Out"]],
+    [["x", "i32"]] * 1 + [["y%d" % i, "u8"] for i in range(12)],
+]
+SIGS = [{"generics": "<R: Runtime>"}, {"generics": "<R>", "where": " where R: tauri::Runtime"}, {"generics": "<'a>"},
+        {"generics": "<'a, T: Into<String> + 'a, const N: usize>"}, {"quals": "unsafe "}, {"quals": "extern \"C\" "},
+        {"quals": "unsafe extern \"C\" "}, {"quals": "const "}, {"generics": "<R: Runtime>", "where": " where R: Send + Sync,"}]
 OTHER_ITEMS = [
     "use std::collections::HashMap;",
     "#[derive(Debug, Clone, serde::Serialize, serde::Deserialize)]\npub struct User {\n    pub id: i32,\n    pub name: String,\n}",
@@ -365,7 +388,8 @@ def gen_fn(rng, name, command, method=False):
         ret = gen_ret(rng)
     return {"k": "fn", "name": name, "attrs": attrs, "doc": rng.random() < 0.3,
             "vis": rng.choice(["", "", "pub", "pub", "pub(crate)", "pub(super)"]),
-            "async": rng.random() < 0.4, "params": [list(p) for p in rng.choice(PARAM_SETS)], "ret": ret, "recv": method and rng.random() < 0.6}
+            "async": rng.random() < 0.4, "params": [list(p) for p in rng.choice(ODD_PARAM_SETS if rng.random() < 0.3 else PARAM_SETS)],
+            "ret": ret, "recv": method and rng.random() < 0.6, **({"sig": dict(rng.choice(SIGS))} if rng.random() < 0.15 else {})}
 
 
 def gen_items(rng, names, depth=0):
@@ -642,6 +666,14 @@ def stats(case, acc):
                     acc["attr:" + a["text"]] = acc.get("attr:" + a["text"], 0) + 1
                 for key in ret_shape(it):
                     acc[key] = acc.get(key, 0) + 1
+                for _, ty in it.get("params", []):
+                    if ty.split("<")[0].split("::")[-1] in ("Channel", "State", "AppHandle", "Window", "WebviewWindow"):
+                        k_ = "param:framework_like:" + ("with_args" if "<" in ty else "bare")
+                        acc[k_] = acc.get(k_, 0) + 1
+                    elif "Channel" in ty:
+                        acc["param:channel_nested"] = acc.get("param:channel_nested", 0) + 1
+                if it.get("sig"):
+                    acc["sig:" + "/".join(sorted(it["sig"]))] = acc.get("sig:" + "/".join(sorted(it["sig"])), 0) + 1
             elif it["k"] == "impl":
                 for f in it["fns"]:
                     for a in f["attrs"]:
